@@ -23,15 +23,18 @@ type loggerCase struct {
 	Seed    uint64 `json:"seed"`
 	Stdin   string `json:"stdin_mode"` // file | pipe | pipe-close-at-once
 	// sizes of the writes to the program's standard input, in turn (overrides Chunk)
-	ChunkPattern []int  `json:"chunk_pattern,omitempty"`
-	Chunk        int    `json:"chunk"`
-	GapUs        int    `json:"gap_us"`
-	Hook         string `json:"hook_profile"`
-	Procs        int    `json:"gomaxprocs"`
-	LogEvents    bool   `json:"log_events"`
-	NoEventDir   bool   `json:"no_event_log_directory,omitempty"`
-	NoOldDir     bool   `json:"no_directory_for_old_logs,omitempty"`
-	TZ           string `json:"tz,omitempty"` // time zone of the process
+	ChunkPattern []int `json:"chunk_pattern,omitempty"`
+	// the reader of the program's standard output stops reading once for this long
+	// after its first 4096 bytes (a downstream program that is busy for a while)
+	StdoutPauseMs int    `json:"stdout_reader_pauses_ms,omitempty"`
+	Chunk         int    `json:"chunk"`
+	GapUs         int    `json:"gap_us"`
+	Hook          string `json:"hook_profile"`
+	Procs         int    `json:"gomaxprocs"`
+	LogEvents     bool   `json:"log_events"`
+	NoEventDir    bool   `json:"no_event_log_directory,omitempty"`
+	NoOldDir      bool   `json:"no_directory_for_old_logs,omitempty"`
+	TZ            string `json:"tz,omitempty"` // time zone of the process
 	// the local time of day at which the process starts ("hh:mm:ss"): realised at run time
 	// by a zone file whose offset is the difference from the machine's clock
 	LocalClock string `json:"local_time_of_day_at_start,omitempty"`
@@ -47,6 +50,9 @@ type loggerCase struct {
 	// the configured record directory lies two or three levels below anything that
 	// exists yet (a fresh machine, the shipped "./logs/rtcm")
 	DeepDir bool `json:"record_directory_several_new_levels,omitempty"`
+	// the record directory already holds the records and event logs of twenty earlier
+	// days (named for dates in 1999)
+	History bool `json:"record_directory_has_history,omitempty"`
 	// the event log directory is the same directory as the record's
 	SameDirs bool `json:"event_log_in_the_record_directory,omitempty"`
 	// the first write to the input has this many bytes (the first read gets exactly them)
@@ -170,6 +176,13 @@ func execC16(c *child.Ctx, k loggerCase, cj []byte) {
 		cfgText += `, "comment": "station 7, roof", "caster_host_name": "caster.example", "caster_port": 2101, "input": ["/dev/ttyACM0"], "timeout_on_EOF_milliseconds": 500`
 	}
 	os.WriteFile(filepath.Join(dir, "cfg.json"), []byte(cfgText+"}"), 0644)
+	if k.History && !k.SymlinkDir {
+		os.MkdirAll(logDir, 0755)
+		for d := 1; d <= 20; d++ {
+			os.WriteFile(filepath.Join(logDir, fmt.Sprintf("rtcmlogger.1999-01-%02d.rtcm", d)), []byte("old record\n"), 0644)
+			os.WriteFile(filepath.Join(logDir, fmt.Sprintf("rtcmlogger.1999-01-%02d.log", d)), []byte("old events\n"), 0644)
+		}
+	}
 	var extraEnv []string
 	if strings.HasPrefix(k.TZ, "fixed") {
 		// a zone file with a fixed offset of up to +-23 h: relative to the UTC date the
@@ -198,7 +211,7 @@ func execC16(c *child.Ctx, k loggerCase, cj []byte) {
 		extraEnv = append(extraEnv, "TZ="+k.TZ)
 	}
 	ak := appCase{ID: k.ID, StdinMode: "pipe", StdoutMode: "fast", Chunk: k.Chunk, ReaderUs: k.GapUs, Procs: k.Procs, HookProfile: k.Hook,
-		SilenceAfterChunks: k.SilenceAfterChunks, SilenceMs: k.SilenceMs, StdinNonblock: k.StdinNonblock, FirstChunk: k.FirstChunk, ChunkPattern: k.ChunkPattern}
+		SilenceAfterChunks: k.SilenceAfterChunks, SilenceMs: k.SilenceMs, StdinNonblock: k.StdinNonblock, FirstChunk: k.FirstChunk, ChunkPattern: k.ChunkPattern, StdoutPauseMs: k.StdoutPauseMs, StdoutPauseAfter: 4096}
 	if k.Stdin == "file" || k.Stdin == "devnull" || k.Stdin == "pty" {
 		ak.StdinMode = k.Stdin
 	}
@@ -259,7 +272,7 @@ func execC16(c *child.Ctx, k loggerCase, cj []byte) {
 	// the record must be in the configured directory itself
 	inLogDir := map[string][]byte{}
 	for name, b := range res.Files {
-		if filepath.Dir(name) == recRel {
+		if filepath.Dir(name) == recRel && !strings.HasPrefix(filepath.Base(name), "rtcmlogger.1999-") {
 			inLogDir[name] = b
 		}
 	}
@@ -370,6 +383,10 @@ func monC16(c *child.Ctx, replay json.RawMessage) {
 			k.SymlinkDir = true
 			c.Count("runs_with_record_directory_behind_a_symlink", 1)
 		}
+		if i%11 == 6 || i%11 == 2 {
+			k.History = true
+			c.Count("runs_with_a_record_directory_that_has_history", 1)
+		}
 		if i%11 == 6 {
 			// the event log shares the record's directory
 			k.LogEvents, k.SameDirs, k.NoEventDir = true, true, false
@@ -390,6 +407,15 @@ func monC16(c *child.Ctx, replay json.RawMessage) {
 				k.Content, k.ChunkPattern = "crlf-binary", []int{r.Range(5, 60), 2, 1, r.Range(1, 9), 2}
 			}
 			c.Count("runs_with_line_ends_arriving_on_their_own", 1)
+		}
+		if i == 12 && c.Batch%4 == 0 {
+			// downstream is busy for a few seconds while hundreds of kilobytes arrive: the
+			// pipe to it fills up, the program waits in its write; the event log is on
+			k.Stdin, k.Content, k.Size, k.Chunk, k.GapUs, k.Hook = "pipe", "random", r.Range(200000, 400000), 8096, 0, ""
+			k.SilenceMs, k.FirstChunk, k.ChunkPattern, k.StdinNonblock = 0, 0, nil, false
+			k.LogEvents, k.NoEventDir = true, false
+			k.StdoutPauseMs = []int{2600, 4200}[c.Batch/4%2]
+			c.Count("runs_with_the_output_held_up_for_seconds", 1)
 		}
 		if i%13 == 3 || i%13 == 8 {
 			// the standard input is a character device: /dev/null (an empty input), or a
